@@ -337,7 +337,7 @@ ASSUME = [
 
 # ------------------------------------------------------------------------------------------
 
-def run_shard(idx, sh, binary, prop, seed, logdir):
+def run_shard_once(idx, sh, binary, prop, seed, logdir, attempt, skip):
     fl = sh["fl"]
     args = list(sh["args"]) + ["--seed", str(seed), "--prop", prop, "--replays", REPLAYS]
     if fl in ("asan", "asanext", "msan", "valgrind", "miri", "miriext") and not sh.get("leaks_ok"):
@@ -346,12 +346,18 @@ def run_shard(idx, sh, binary, prop, seed, logdir):
     if "transcript" in sh:
         tfile = os.path.join(logdir, f"transcript-{sh['transcript']}-{fl}.txt")
         args += ["--transcript", tfile]
+    pfile = None
+    if sh["args"][0] in RESUMABLE and "transcript" not in sh:
+        pfile = os.path.join(logdir, f"progress-{idx:02d}")
+        args += ["--progress", pfile]
+        if skip:
+            args += ["--skip", str(skip)]
     cmd = shard_cmd(fl, binary, args)
     env = miri_env(fl, sh.get("leaks_ok")) if fl in ("miri", "miriext") else run_env(fl)
     if fl in ("asan", "asanext") and sh.get("leaks_ok"):
         env["ASAN_OPTIONS"] = env["ASAN_OPTIONS"].replace("detect_leaks=1", "detect_leaks=0")
     t0 = time.time()
-    logp = os.path.join(logdir, f"shard-{idx:02d}-{fl}-{sh['args'][0]}.log")
+    logp = os.path.join(logdir, f"shard-{idx:02d}-{fl}-{sh['args'][0]}" + (f"-r{attempt}" if attempt else "") + ".log")
     try:
         p = subprocess.run(cmd, cwd=H, env=env, stdout=subprocess.PIPE, stderr=subprocess.PIPE, text=True, timeout=sh["timeout"], errors="replace")
         rc, out, err, timed_out = p.returncode, p.stdout, p.stderr, False
@@ -368,7 +374,29 @@ def run_shard(idx, sh, binary, prop, seed, logdir):
                 res = json.loads(line[7:])
             except Exception:
                 res = None
-    return {"idx": idx, "sh": sh, "rc": rc, "out": out, "err": err, "res": res, "timed_out": timed_out, "wall": time.time() - t0, "log": logp, "transcript": tfile}
+    died_at = None
+    if res is None and pfile and not timed_out:
+        try:
+            died_at = int(open(pfile).read().strip())
+        except Exception:
+            died_at = None
+    return {"idx": idx, "sh": sh, "rc": rc, "out": out, "err": err, "res": res, "timed_out": timed_out, "wall": time.time() - t0, "log": logp, "transcript": tfile, "died_at": died_at, "attempt": attempt}
+
+# workloads that can resume after the history that killed the process
+RESUMABLE = ("hist", "sets")
+MAX_RESTARTS = 12
+
+def run_shard(idx, sh, binary, prop, seed, logdir):
+    """Run one shard; if the process dies inside history h, record the crash and resume at h+1."""
+    out = []
+    skip = 0
+    for attempt in range(MAX_RESTARTS + 1):
+        r = run_shard_once(idx, sh, binary, prop, seed, logdir, attempt, skip)
+        out.append(r)
+        if r["res"] is not None or r["died_at"] is None:
+            break
+        skip = r["died_at"] + 1
+    return out
 
 def merge(results):
     M = {"evaluations": 0, "distinct_nontrivial": 0, "samples": [], "counts": {}, "by_code": {}, "phase_code": {}, "notes": {}, "violations": [], "also": {}, "harness_errors": [], "flavours": {}}
@@ -550,7 +578,7 @@ def main():
     with ThreadPoolExecutor(max_workers=jobs) as ex:
         futs = [ex.submit(run_shard, i, sh, binaries.get(sh["fl"]), prop, seed + 7919 * 0, logdir) for i, sh in enumerate(shards)]
         for f in futs:
-            results.append(f.result())
+            results.extend(f.result())
     M = merge(results)
     violations = list(M["violations"])  # [{"msg":..., "replay":...}]
     inconclusive_reasons = []
